@@ -29,5 +29,8 @@ def fill(add, not_yet):
     add("C12", "Lean 4 theorems about the TFM pipeline model (contact = delay-and-sum with straight-ray tables and default weights; view = transposed ray times; HMC=FMC, reciprocal views, spike focus in exact arithmetic) + exact-rational correspondence with contact_tfm / tfm_for_view + bitwise lookup-table correspondence",
         "Proof on the composed model (C01 leg time, C15 weights, C02 kernels); contact_tfm and tfm_for_view are compared with the model evaluated exactly on rationals, the straight-ray table bit for bit; the identities of the property are evaluated on arim with real ray tracing (C/Fortran order).",
         STD_NOTE)
-    for p in ["C03","C04","C05","C06","C07","C08","C09","C10","C11","C16","C17","C19"]:
+    add("C17", "Lean 4 theorems about the geometry model (to/from GCS inverse and isometric for orthonormal bases, proper rotation matrices, isometry construction, grid axis/ordering/box laws) + Float correspondence with arim.geometry (bit-exact for grid vectors, box selection, distances)",
+        "Proof over any commutative ring / ordered field for the written-out einsum conventions and grid arithmetic; the same definitions run on doubles and are compared with arim (bitwise where the code performs the same rounded operations, 32-64 ulp where einsum chooses the summation order); the laws of the property are evaluated on arim directly.",
+        STD_NOTE)
+    for p in ["C03","C04","C05","C06","C07","C08","C09","C10","C11","C16","C19"]:
         not_yet[p] = "check not built yet in this round (work in progress; Lean-4 proof + correspondence planned, see DESIGN.md section 6)"
